@@ -27,6 +27,7 @@ import (
 	"bytes"
 	"context"
 	"encoding/binary"
+	"errors"
 	"fmt"
 	"io"
 	"math/rand"
@@ -395,9 +396,14 @@ type c15Case struct {
 	AppendParent bool     `json:"append_parent"`
 	Procs        int      `json:"procs"`
 	Seed         int64    `json:"seed"`
+	// FaultAfter > 0: the source fails with a non-EOF error exactly at the end of the FaultAfter-th section
+	FaultAfter int `json:"fault_after,omitempty"`
 }
 
 func (c c15Case) String() string {
+	if c.FaultAfter > 0 {
+		return fmt.Sprintf("shape=%s ignore=%v consumer=%s chunk=%s procs=%d seed=%d read-fault-after-section=%d", c.Shape.Name, c.Ignore, c.Consumer, c.Chunk, c.Procs, c.Seed, c.FaultAfter)
+	}
 	return fmt.Sprintf("shape=%s ignore=%v skip=%d consumer=%s chunk=%s append=%v procs=%d seed=%d", c.Shape.Name, c.Ignore, c.Skip, c.Consumer, c.Chunk, c.AppendParent, c.Procs, c.Seed)
 }
 
@@ -482,7 +488,10 @@ type c15Reader struct {
 	rng      *rand.Rand
 	reads    int
 	closed   bool
+	faultAt  int // > 0: Read fails with a non-EOF error once this offset is reached
 }
+
+var errC15Fault = errors.New("c15: injected read fault (input/output error)")
 
 func (r *c15Reader) Close() error { r.closed = true; return nil }
 
@@ -498,6 +507,9 @@ func (r *c15Reader) Read(p []byte) (int, error) {
 		need := sort.Search(len(r.ends), func(i int) bool { return r.ends[i] > uint64(r.pos) })
 		r.sched.waitFor(func() bool { return r.sched.done >= need })
 	}
+	if r.faultAt > 0 && r.pos >= r.faultAt {
+		return 0, errC15Fault
+	}
 	if eof {
 		return 0, io.EOF
 	}
@@ -508,6 +520,9 @@ func (r *c15Reader) Read(p []byte) (int, error) {
 	n := len(r.b) - r.pos
 	if len(p) < n {
 		n = len(p)
+	}
+	if r.faultAt > 0 && r.pos+n > r.faultAt {
+		n = r.faultAt - r.pos
 	}
 	if r.chunk != "whole" {
 		i := sort.Search(len(r.bounds), func(i int) bool { return r.bounds[i] > uint64(r.pos) })
@@ -932,6 +947,9 @@ func c15RunCase(rec *ev.Recorder, car *c15Car, c c15Case) c15Result {
 		}
 	}
 	rd := &c15Reader{b: car.Bytes, chunk: c.Chunk, sched: r.sched, lockstep: c.Consumer == "lockstep", ends: parentEnds, rng: rand.New(rand.NewSource(c.Seed*17 + 3))}
+	if c.FaultAfter > 0 && c.FaultAfter <= len(car.secEnds) {
+		rd.faultAt = int(car.secEnds[c.FaultAfter-1])
+	}
 	switch c.Chunk {
 	case "section":
 		rd.bounds = car.secEnds
@@ -1019,6 +1037,20 @@ func c15RunCase(rec *ev.Recorder, car *c15Car, c c15Case) c15Result {
 	activeAtReturn := r.inCb.Load() > 0
 	if out.pan != nil {
 		violate("panic", fmt.Sprintf("Run panicked: %v\n%s", out.pan, out.stk))
+		return res
+	}
+	if rd.faultAt > 0 {
+		// the source failed in the middle of the CAR: Run has to say so; returning nil claims that the
+		// traversal was complete
+		rec.Count("runs_with_a_failing_source", 1)
+		if out.err != nil {
+			rec.Count("runs_with_a_failing_source_that_reported_it", 1)
+			return res
+		}
+		r.mu.Lock()
+		ndf := r.nDeliv
+		r.mu.Unlock()
+		violate("read-error-reported-as-end-of-file", fmt.Sprintf("the source failed with %q at offset %d of %d (end of section %d) and Run returned nil after delivering %d of %d groups", errC15Fault, rd.faultAt, len(car.Bytes), c.FaultAfter, ndf, len(exp)))
 		return res
 	}
 	if out.err != nil {
@@ -1274,6 +1306,17 @@ func c15Cases(car *c15Car, sh c15Shape, shapeIdx int, seed int64) []c15Case {
 	for ii, ig := range ignoreSets {
 		for ci, cs := range c15Consumers {
 			add(c15Case{Ignore: ig, Consumer: cs.consumer, Chunk: cs.chunk, AppendParent: (ii+ci)%2 == 0})
+		}
+	}
+	// a source that fails (not EOF) exactly between two sections
+	if !manyGroups && len(car.secEnds) > 3 {
+		ns := len(car.secEnds)
+		for fi, k := range []int{1, 2, ns / 2, ns - 2, ns - 1} {
+			if k < 1 || k >= ns {
+				continue
+			}
+			// (free-running consumers only: a steered consumer would wait for reader progress that cannot come)
+			add(c15Case{Consumer: []string{"instant", "yield"}[fi%2], Chunk: []string{"whole", "section", "block"}[fi%3], FaultAfter: k})
 		}
 	}
 	// SetSkip
